@@ -10,9 +10,9 @@ class C17(Prop):
     id = 'C17'
     lean_modules = ['RSocketModel.Props.C17']
     technique = 'Lean 4 proof (client life-cycle model, any prior state, any number of reconnects) + differential correspondence under a virtual clock'
-    level_text = ('c17_fresh_connection (for every state the previous connection was left in), c17_served(_early_request), c17_keepalives_restart and c17_any_number are kernel-checked on the '
+    level_text = ('c17_fresh_connection (for every state the previous connection was left in), c17_served(_early_request), c17_keepalives_restart, c17_any_number, c17_old_transport_closed and c17_every_old_transport_closed (over every life-cycle history each transport obtained from the provider is the one in use or has been closed) are kernel-checked on the '
                   'client life-cycle model shared with C16; the model is replayed on the entry-point sequence observed from a real RSocketClient that is reconnected after server EOF, transport '
-                  'error, keepalive timeout or while healthy, with interactions pending, 1..4 times in a row.')
+                  'error, keepalive timeout or while healthy, with interactions pending, 1..4 times in a row; frames per transport and the transports closed are compared.')
     level_note = 'Trusted: Lean kernel + standard axioms; provider generators are application code; transport.close() may raise (scripted); virtual clock.'
     design_ref = '§5 C17'
     rule = ('cause of the previous connection\'s end (server EOF, transport error, keepalive timeout, healthy) x pending request-responses/streams/channels with a live local publisher at that moment x 1..4 consecutive '
@@ -190,11 +190,12 @@ class C17(Prop):
                 'mid': None if mid is None else (mid if isinstance(mid, str) else ('pending' if not mid.done() else ('cancelled' if mid.cancelled() else ('failed' if mid.exception() is not None else 'served')))),
             })
         evs, sends, anomalies = R.model_events()
+        closed = [int(e.split(':')[1]) for e in R.log if e.startswith('TC:')]      # transports closed so far (the final close() comes below)
         try:
             await c.close()
         except Exception:
             pass
-        return {'rounds': rounds, 'events': evs, 'sends': sends, 'anomalies': anomalies, 'first_ok': ok0}
+        return {'rounds': rounds, 'events': evs, 'sends': sends, 'anomalies': anomalies, 'first_ok': ok0, 'closed': closed}
 
     def model_lines(self, case, obs):
         return ['cli ' + ' '.join(e for e in obs['events'] if e != 'QS-LATE')]
@@ -208,6 +209,10 @@ class C17(Prop):
         if sent != obs['sends']:
             i = next((k for k, (a, b) in enumerate(zip(sent, obs['sends'])) if a != b), min(len(sent), len(obs['sends'])))
             return 'frames handed to transports differ at send %d: impl %s / model %s' % (i, obs['sends'][max(0, i - 2):i + 3], sent[max(0, i - 2):i + 3])
+        fields = dict(x.split('=', 1) for x in answers[0].split(' | ')[1].split(' ') if '=' in x)
+        mclosed = [] if fields.get('closed', '-') == '-' else [int(x) for x in fields['closed'].split(',')]
+        if 'closed' in obs and mclosed != obs['closed']:
+            return 'transports closed by the reconnects: impl %s / model %s' % (obs['closed'], mclosed)
 
     def oracle(self, case, obs):
         fails = []
